@@ -6,9 +6,13 @@
 //   ini <ow> <pre> <doc>            rt <ow> : item;item;…           hostile <doc>
 //   opt <pre> <arg>…                nopt <req> <allowMore> <ow> <pre> <nkw> <kw>… <arg>…
 //   get <T> <text>                  shw <int>                       tq k=v,… : probe;…
+//   bads <ow> <n> <pre> <doc>       (stream that fails after n bytes)
 #include <config.h>
 
 #include <unistd.h>
+
+#include <fstream>
+#include <stdexcept>
 
 #include <array>
 #include <bitset>
@@ -86,7 +90,10 @@ static std::string guarded(F&& f) {
   catch (Dune::HelpRequest&) { return "ERR:Help"; }
   catch (Dune::ParameterTreeParserError&) { return "ERR:Parser"; }
   catch (Dune::RangeError&) { return "ERR:Range"; }
+  catch (Dune::IOError&) { return "ERR:IO"; }
 }
+// scratch file prefix for the file-name overloads (derived from --out in main)
+static std::string g_tmp = "build/c12_scratch";
 
 // ------------------------------------------------------------------------------------------------
 // reference (shadow) tree: insertion-ordered vectors, written without any Dune code
@@ -355,6 +362,64 @@ static TwoRes runTwo(const std::string& pre, const std::string& doc, bool ow) {
   });
   return r;
 }
+// every way of handing the same bytes to readINITree must give the same result: the file-name overloads, the
+// overloads returning a tree, the overload without srcname.  "" = agreement
+static void writeFile(const std::string& name, const std::string& bytes) {
+  std::ofstream f(name, std::ios::binary | std::ios::trunc);
+  f.write(bytes.data(), (std::streamsize)bytes.size());
+}
+static std::string overloadCheck(const std::string& pre, const std::string& doc, bool ow, const std::string& impl) {
+  const std::string f1 = g_tmp + ".pre.ini", f2 = g_tmp + ".doc.ini";
+  writeFile(f1, pre);
+  writeFile(f2, doc);
+  std::string viaFile = guarded([&] {
+    ParameterTree pt;
+    ParameterTreeParser::readINITree(f1, pt, true);
+    ParameterTreeParser::readINITree(f2, pt, ow);
+    return dumpTree(pt);
+  });
+  if (viaFile != impl) return "readINITree(file, pt, overwrite) differs from the stream overload: " + viaFile.substr(0, 200);
+  std::string via3 = guarded([&] {
+    ParameterTree pt;
+    std::istringstream a(pre), b(doc);
+    ParameterTreeParser::readINITree(a, pt, true);
+    ParameterTreeParser::readINITree(b, pt, ow);
+    return dumpTree(pt);
+  });
+  if (via3 != impl) return "readINITree(stream, pt, overwrite) differs from the overload with srcname: " + via3.substr(0, 200);
+  if (pre.empty() && ow) {
+    std::string a = guarded([&] { return dumpTree(ParameterTreeParser::readINITree(f2)); });
+    if (a != impl) return "readINITree(file) differs from the stream overload: " + a.substr(0, 200);
+    std::string b = guarded([&] { std::istringstream in(doc); return dumpTree(ParameterTreeParser::readINITree(in)); });
+    if (b != impl) return "readINITree(stream) differs from readINITree(stream, pt): " + b.substr(0, 200);
+  }
+  // default arguments: overwrite = true
+  if (ow) {
+    std::string c = guarded([&] {
+      ParameterTree pt;
+      std::istringstream a(pre), b(doc);
+      ParameterTreeParser::readINITree(a, pt);
+      ParameterTreeParser::readINITree(b, pt);
+      return dumpTree(pt);
+    });
+    if (c != impl) return "readINITree(stream, pt) with default arguments differs: " + c.substr(0, 200);
+    std::string d = guarded([&] {
+      ParameterTree pt;
+      ParameterTreeParser::readINITree(f1, pt);
+      ParameterTreeParser::readINITree(f2, pt);
+      return dumpTree(pt);
+    });
+    if (d != impl) return "readINITree(file, pt) with default arguments differs: " + d.substr(0, 200);
+  }
+  // a file that does not exist is an IOError
+  std::string e = guarded([&] { ParameterTree pt; ParameterTreeParser::readINITree(g_tmp + ".does-not-exist", pt, ow); return std::string("returned"); });
+  if (e != "ERR:IO") return "missing file not reported as IOError: " + e;
+  std::string e2 = guarded([&] { return dumpTree(ParameterTreeParser::readINITree(g_tmp + ".does-not-exist")); });
+  if (e2 != "ERR:IO") return "missing file not reported as IOError (returning overload): " + e2;
+  stat("overload_checks");
+  return "";
+}
+
 // oracle: expected outcome from the two assignment sequences; "" = agreement, "?" = no claim
 static std::string judgeTwo(const TwoRes& got, const Entries& e1, const Entries& e2, bool ow) {
   RTree ref;
@@ -377,6 +442,7 @@ static Result execIni(const std::vector<std::string>& w) {
   Result res;
   TwoRes got = runTwo(pre, doc, ow);
   res.impl = got.impl;
+  if (std::string oc = overloadCheck(pre, doc, ow, got.impl); !oc.empty()) { res.oracle = "FAIL " + oc; return res; }
   auto e1 = strictParse(pre), e2 = strictParse(doc);
   if (!e1 || !e2) { res.oracle = "ok trivial"; stat("ini_outside_dialect"); return res; }
   std::string j = judgeTwo(got, *e1, *e2, ow);
@@ -406,12 +472,53 @@ static Result execRt(const std::vector<std::string>& w, const std::string& tail)
   Result res;
   TwoRes got = runTwo(d1, d2, ow);
   res.impl = std::string("wf=") + (wf ? "true" : "false") + " pre=" + hx(d1) + " doc=" + hx(d2) + " " + got.impl;
+  if (std::string oc = overloadCheck(d1, d2, ow, got.impl); !oc.empty()) { res.oracle = "FAIL " + oc; return res; }
   if (!wf) { res.oracle = "ok trivial"; stat("rt_not_wf"); return res; }
   std::string j = judgeTwo(got, denote(pre), denote(mainItems), ow);
   if (j == "?") { res.oracle = "ok trivial"; stat("rt_conflict"); }
   else if (!j.empty()) res.oracle = "FAIL " + j;
   else stat(got.ok ? "rt_ok" : "rt_dup");
   stat("rt_items", (long)(pre.size() + mainItems.size()));
+  return res;
+}
+
+// a stream that delivers `limit` bytes and then fails with a read error (underflow throws; the istream turns
+// that into badbit) - what a directory opened as a file, or an I/O error in the middle of a file, looks like
+struct FailBuf : std::streambuf {
+  std::string data;
+  FailBuf(const std::string& d, size_t limit) : data(d) {
+    char* b = data.data();
+    setg(b, b, b + std::min(limit, data.size()));
+  }
+  int_type underflow() override { throw std::runtime_error("simulated read error"); }
+};
+static Result execBads(const std::vector<std::string>& w) {
+  if (w.size() != 5) throw BadOp();
+  bool ow = w[1] == "1";
+  size_t n = std::stoul(w[2]);
+  std::string pre = unhex(w[3]), doc = unhex(w[4]);
+  Result res;
+  alarm(10);   // the defect repaired by fixes/C12_badstream.patch is an endless loop
+  res.impl = guarded([&] {
+    ParameterTree pt;
+    std::istringstream a(pre);
+    ParameterTreeParser::readINITree(a, pt, true);
+    FailBuf fb(doc, n);
+    std::istream in(&fb);
+    ParameterTreeParser::readINITree(in, pt, "failing stream", ow);
+    return dumpTree(pt);
+  });
+  stat("bads_" + res.impl.substr(0, 10));
+  // the read error must be reported; an error in the text read so far may come first
+  if (res.impl.rfind("ERR:", 0) != 0) { res.oracle = "FAIL read error of the input stream not reported: got " + res.impl.substr(0, 200); return res; }
+  auto e1 = strictParse(pre), e2 = strictParse(doc.substr(0, std::min(n, doc.size())));
+  if (!e1 || !e2) { res.oracle = "ok trivial"; return res; }
+  RTree ref;
+  std::string s = refSource(ref, *e1, true);
+  if (s.empty()) s = refSource(ref, *e2, ow);
+  if (s == "?") { res.oracle = "ok trivial"; return res; }
+  std::string want = s.empty() ? "ERR:IO" : s;
+  if (res.impl != want) res.oracle = "FAIL failing stream: got " + res.impl + " want " + want;
   return res;
 }
 
@@ -507,8 +614,16 @@ static Result execNopt(const std::vector<std::string>& w) {
     std::istringstream a(pre);
     ParameterTreeParser::readINITree(a, pt, true);
     Argv av(args);
-    ParameterTreeParser::readNamedOptions(av.argc(), av.argv(), pt, kws, (unsigned)std::min<unsigned long>(required, UINT_MAX),
-                                          allowMore, ow);
+    // help strings (fewer, as many, or more than there are keywords; some empty) must not influence the result
+    std::vector<std::string> help;
+    size_t nh = (args.size() * 7 + pre.size() + required) % (nkw + 3);
+    for (size_t i = 0; i < nh; ++i) help.push_back(i % 3 == 1 ? "" : "help for #" + std::to_string(i));
+    stat(nh > nkw ? "nopt_help_more" : nh == nkw ? "nopt_help_equal" : "nopt_help_fewer");
+    if (nh == 0 && required >= UINT_MAX && allowMore && ow)
+      ParameterTreeParser::readNamedOptions(av.argc(), av.argv(), pt, kws);   // all default arguments
+    else
+      ParameterTreeParser::readNamedOptions(av.argc(), av.argv(), pt, kws, (unsigned)std::min<unsigned long>(required, UINT_MAX),
+                                            allowMore, ow, help);
     ok = true;
     return dumpTree(pt);
   });
@@ -568,6 +683,14 @@ static std::string showD(double d) {
 template <class T> static std::string show1(const T& v) { return std::to_string(v); }
 static std::string show1(const bool& v) { return v ? "true" : "false"; }
 static std::string show1(const double& v) { return showD(v); }
+static std::string show1(const float& v) {
+  uint32_t b;
+  std::memcpy(&b, &v, 4);
+  char buf[32];
+  std::snprintf(buf, sizeof buf, "f:%08x", (unsigned)b);
+  return buf;
+}
+static std::string show1(const char& v) { return "c:" + hx(std::string(1, v)); }
 static std::string show1(const std::string& v) { return hx(v); }
 template <class C> static std::string showSeq(const C& c) {
   std::string o = "[";
@@ -663,7 +786,7 @@ static std::string refBool(const std::string& text) {
   if (r == "ERR:Range" || r == "?") return r;
   return r == "0" ? "false" : "true";
 }
-static std::string refDouble(const std::string& tok) {
+template <class F> static std::string refFloating(const std::string& tok) {
   // [sign] (digits [. digits*] | . digits) [e [sign] digits]
   size_t i = 0, n = tok.size();
   if (i < n && (tok[i] == '+' || tok[i] == '-')) ++i;
@@ -681,7 +804,7 @@ static std::string refDouble(const std::string& tok) {
   }
   if (i != n) return "ERR:Range";
   std::string t = tok[0] == '+' ? tok.substr(1) : tok;
-  double v = 0;
+  F v = 0;
   auto r = std::from_chars(t.data(), t.data() + t.size(), v);
   if (r.ec == std::errc::result_out_of_range) {
     // overflow must be reported; underflow is not an error for operator>>
@@ -690,8 +813,10 @@ static std::string refDouble(const std::string& tok) {
     return "?";
   }
   if (r.ec != std::errc() || r.ptr != t.data() + t.size()) return "?";
-  return showD(v);
+  return show1(v);
 }
+static std::string refDouble(const std::string& tok) { return refFloating<double>(tok); }
+static std::string refChar(const std::string& tok) { return tok.size() == 1 ? show1(tok[0]) : "ERR:Range"; }
 static std::vector<std::string> tokensBy(const std::string& s, bool (*ws)(char)) {
   std::vector<std::string> out;
   std::string cur;
@@ -707,6 +832,8 @@ static std::string refScalar(char kind, const std::string& text, bool sg, int bi
     case 'i': return refInt(stripC(text), sg, bits);
     case 'b': return refBool(text);
     case 'd': return refDouble(stripC(text));
+    case 'f': return refFloating<float>(stripC(text));
+    case 'c': return refChar(stripC(text));
     default: {  // string: blanks " \t\n\r" removed at both ends
       size_t a = text.find_first_not_of(" \t\n\r");
       if (a == std::string::npos) return hx("");
@@ -748,11 +875,13 @@ static size_t literalLen(const std::string& t, size_t i0, bool flt) {
 static std::string refSeq(char kind, const std::string& text, bool sg, int bits, long n, bool duneSplit) {
   auto toks0 = tokensBy(text, duneSplit ? isWsCh : isSpaceC);
   std::vector<std::string> toks;
-  if (!duneSplit && (kind == 'i' || kind == 'd')) {
+  if (!duneSplit && kind == 'c') {   // characters read from one stream need no blank between them
+    for (auto& t : toks0) for (char c : t) toks.push_back(std::string(1, c));
+  } else if (!duneSplit && (kind == 'i' || kind == 'd' || kind == 'f')) {
     for (auto& t : toks0) {
       size_t i = 0;
       while (i < t.size()) {
-        size_t l = literalLen(t, i, kind == 'd');
+        size_t l = literalLen(t, i, kind != 'i');
         if (l == 0) return "ERR:Range";
         toks.push_back(t.substr(i, l));
         i += l;
@@ -785,12 +914,16 @@ static Result execGet(const std::vector<std::string>& w) {
 #define ARR(PFX, T, KIND, SG, N)                                                                         \
   if (ty == PFX #N) { run([&] { return getOnce<std::array<T, N>>(text); }); want = refSeq(KIND, text, SG, 32, N, false); } else
 #define ARRS(PFX, T, KIND, SG) ARR(PFX, T, KIND, SG, 0) ARR(PFX, T, KIND, SG, 1) ARR(PFX, T, KIND, SG, 2) ARR(PFX, T, KIND, SG, 3)
+#define FD(N) if (ty == "fd" #N) { run([&] { return getOnce<Dune::FieldVector<double, N>>(text); }); want = refSeq('d', text, true, 32, N, false); } else
 #define FV(N) if (ty == "fi" #N) { run([&] { return getOnce<Dune::FieldVector<int, N>>(text); }); want = refSeq('i', text, true, 32, N, false); } else
 #define BS(N) if (ty == "bs" #N) { run([&] { return getBitset<N>(text); }); want = refSeq('b', text, true, 32, N, true); } else
 #define VEC(NAME, T, KIND, SG) if (ty == NAME) { run([&] { return getOnce<std::vector<T>>(text); }); want = refSeq(KIND, text, SG, 32, -1, true); } else
   SCALAR("int", int, 'i', true, 32) SCALAR("uint", unsigned, 'i', false, 32) SCALAR("long", long long, 'i', true, 64)
   SCALAR("ulong", unsigned long long, 'i', false, 64) SCALAR("short", short, 'i', true, 16)
   SCALAR("ushort", unsigned short, 'i', false, 16) SCALAR("bool", bool, 'b', true, 32) SCALAR("dbl", double, 'd', true, 0)
+  SCALAR("flt", float, 'f', true, 0) SCALAR("chr", char, 'c', true, 0)
+  ARRS("af", float, 'f', true) ARRS("ac", char, 'c', true) FD(1) FD(2)
+  VEC("vf", float, 'f', true) VEC("vc", char, 'c', true)
   if (ty == "str") { run([&] { return getOnce<std::string>(text); }); want = "s:" + refScalar('s', text, true, 0); } else
   ARRS("ai", int, 'i', true) ARRS("au", unsigned, 'i', false) ARRS("as", std::string, 's', true) ARRS("ad", double, 'd', true)
   FV(1) FV(3) BS(0) BS(1) BS(3) BS(8)
@@ -846,12 +979,14 @@ static std::string refSubDump(RTree& t, const std::vector<std::string>& path, bo
 }
 static Result execTq(const std::vector<std::string>& w, const std::string& tail) {
   if (w.size() != 2) throw BadOp();
-  Entries kvs;
+  struct Build { std::string key, value; bool mkSub; };
+  std::vector<Build> kvs;
   if (w[1] != "-")
     for (auto& kv : split(w[1], ',')) {
       auto p = split(kv, '=');
       if (p.size() != 2) throw BadOp();
-      kvs.push_back({unhex(p[0]), unhex(p[1])});
+      if (p[1] == "@") kvs.push_back({unhex(p[0]), "", true});
+      else kvs.push_back({unhex(p[0]), unhex(p[1]), false});
     }
   Result res;
   ParameterTree pt;
@@ -859,8 +994,21 @@ static Result execTq(const std::vector<std::string>& w, const std::string& tail)
   bool claim = true;
   try {
     for (auto& kv : kvs) {
-      pt[kv.first] = kv.second;
-      if (claim && refAssign(ref, dotted(kv.first), kv.second) == RS_CONFLICT) claim = false;
+      if (kv.mkSub) {
+        // non-const sub(): creates the (empty) groups on the way
+        pt.sub(kv.key);
+        stat("tq_mksub");
+        RTree* cur = &ref;
+        for (auto& c : dotted(kv.key)) {
+          if (cur->val(c)) { claim = false; break; }
+          RTree* n = cur->sub(c);
+          if (!n) { cur->subs.push_back({c, std::make_shared<RTree>()}); n = cur->subs.back().second.get(); }
+          cur = n;
+        }
+        continue;
+      }
+      pt[kv.key] = kv.value;
+      if (claim && refAssign(ref, dotted(kv.key), kv.value) == RS_CONFLICT) claim = false;
     }
   } catch (Dune::RangeError&) {
     res.impl = "ERR:Range";
@@ -907,6 +1055,16 @@ static Result execTq(const std::vector<std::string>& w, const std::string& tail)
       std::string d = unhex(t[2]);
       ans = guarded([&] { return hx(cpt.get(key, d)); });
       if (st == RS_OK) want = cur ? hx(*cur) : hx(d);
+      // the overload taking the default as const char* and the template with T = std::string (trimmed value)
+      if (!hasNul(d)) {
+        std::string a2 = guarded([&] { return hx(cpt.get(key, d.c_str())); });
+        if (a2 != ans && bad.empty()) bad = "gd " + key + ": get(key, const char*) = " + a2.substr(0, 100) + " but get(key, std::string) = " + ans.substr(0, 100);
+      }
+      std::string a3 = guarded([&] { return hx(cpt.get<std::string>(key, d)); });
+      if (st == RS_OK) {
+        std::string w3 = cur ? refScalar('s', *cur, true, 0) : hx(d);
+        if (a3 != w3 && bad.empty()) bad = "gd " + key + ": get<std::string>(key, default) = " + a3.substr(0, 100) + " want " + w3.substr(0, 100);
+      }
     } else if (t[0] == "gi") {
       if (t.size() != 3) throw BadOp();
       int d = std::stoi(t[2]);
@@ -938,6 +1096,7 @@ static Result exec(const std::string& line) {
     if (w[0] == "ini" && !hasTail) res = execIni(w);
     else if (w[0] == "rt" && hasTail) res = execRt(w, tail);
     else if (w[0] == "hostile" && !hasTail) res = execHostile(w);
+    else if (w[0] == "bads" && !hasTail) res = execBads(w);
     else if (w[0] == "opt" && !hasTail) res = execOpt(w);
     else if (w[0] == "nopt" && !hasTail) res = execNopt(w);
     else if (w[0] == "get" && !hasTail) res = execGet(w);
@@ -1192,6 +1351,20 @@ static std::string genHostile(Rng& r, const Args& a) {
   return "hostile " + hx(doc);
 }
 
+// a dialect document read from a stream that fails after n bytes
+static std::string genBads(Rng& r, const Args&) {
+  std::string doc = renderDoc(genDoc(r, 8, r.coin(1, 8), false).items);
+  if (r.coin(1, 6)) doc = std::string(r.coin() ? "k = \"" : "k = 'open\n") + doc;   // fails inside an open quote
+  std::string pre = r.coin(1, 4) ? renderDoc(genDoc(r, 3, false, false).items) : "";
+  size_t n = r.below(doc.size() + 1);
+  long k = r.range(0, 9);
+  if (k == 0) n = 0;
+  else if (k == 1) n = doc.size();
+  else if (k == 2) n = doc.size() + (size_t)r.range(1, 5);       // limit beyond the data: the whole document, then the error
+  else if (k == 3 && !doc.empty()) { size_t p = doc.find('\n', r.below(doc.size())); if (p != std::string::npos) n = p + (r.coin() ? 1 : 0); }
+  return "bads " + std::string(r.coin(2, 3) ? "1" : "0") + " " + std::to_string(n) + " " + hx(pre) + " " + hx(doc);
+}
+
 static std::string genOptArgs(Rng& r, std::vector<std::string>& out, bool named) {
   long n = r.range(0, 6);
   for (long i = 0; i < n; ++i) {
@@ -1287,7 +1460,12 @@ static std::string genDblText(Rng& r) {
       "3.14159", "1e", "1e+", ".", "+", "-", "e5", ".e5", "1.5.2", "1e5e3", "1e5.3", "inf", "nan", "0x1p3", "0x10", "1,5", "1.000,5", "1.000",
       "1 000", "1d5", "1f", "--1", "+-1", "1.5e3.0", "2.2250738585072014e-308", "2.2250738585072011e-308", "1.0000000000000002",
       "1.00000000000000011102230246251565404236316680908203125", "1.00000000000000011102230246251565404236316680908203124",
-      "1.00000000000000011102230246251565404236316680908203126", "0.000000000000000000000000000001", "100000000000000000000000"};
+      "1.00000000000000011102230246251565404236316680908203126", "0.000000000000000000000000000001", "100000000000000000000000",
+      // binary32 boundaries: max, overflow threshold (max + half ulp: tie rounds to even = infinity), min subnormal and its half, ties at 2^24
+      "3.4028234e38", "3.4028235e38", "3.4028236e38", "340282346638528859811704183484516925440", "340282356779733661637539395458142568447",
+      "340282356779733661637539395458142568448", "3.5e38", "1e39", "1.17549435e-38", "1.17549428e-38", "1.4e-45", "7.1e-46", "7.0e-46",
+      "7.006492321624085e-46", "7.006492321624086e-46", "1e-46", "16777216", "16777217", "16777218", "16777219", "0.1", "1.00000005960464477539",
+      "1.000000059604644775390625", "1.0000000596046447753906251", "1.00000017881393432617187", "1.000000178813934326171875"};
   if (r.coin(2, 3)) return r.pick(special);
   std::string s = r.coin(1, 4) ? "-" : "";
   long n = r.range(1, 18);
@@ -1303,8 +1481,11 @@ static std::string padC(Rng& r) {
 static std::string genScalarText(Rng& r, char kind, int bits, bool sg) {
   std::string t;
   if (kind == 'i') t = genIntText(r, bits, sg);
-  else if (kind == 'd') t = genDblText(r);
-  else if (kind == 'b') {
+  else if (kind == 'd' || kind == 'f') t = genDblText(r);
+  else if (kind == 'c') {
+    static const std::vector<std::string> c = {"a", "Z", "1", "#", "-", "\xff", "\x01", " a", "a ", "\va\f", "ab", "a b", "", " ", "\t", "a\n", "''", "="};
+    return r.pick(c);
+  } else if (kind == 'b') {
     static const std::vector<std::string> b = {"yes", "no", "true", "false", "YES", "No", "TRUE", "fAlSe", "1", "0", "2", "-1", "10", "y", "n",
                                                "on", "off", "", "yess", "tru", "0x1", "1.0", "00", "+0", "yes ", " no", "-1", "-2", "-17",
                                                "+3", "-0", " 1", "1 ", "-2147483648", "2147483648"};
@@ -1326,9 +1507,11 @@ static std::string genScalarText(Rng& r, char kind, int bits, bool sg) {
   return t + " " + t;
 }
 static std::string genGet(Rng& r, const Args&) {
-  static const std::vector<std::string> scal = {"int", "int", "uint", "long", "ulong", "short", "ushort", "bool", "str", "dbl", "dbl"};
+  static const std::vector<std::string> scal = {"int", "int", "uint", "long", "ulong", "short", "ushort", "bool", "str", "dbl", "dbl",
+                                                "flt", "flt", "chr"};
   static const std::vector<std::string> seqs = {"ai0", "ai1", "ai2", "ai3", "au0", "au1", "au2", "au3", "as0", "as1", "as2", "as3", "ad0", "ad1",
-                                                "ad2", "ad3", "fi1", "fi3", "bs0", "bs1", "bs3", "bs8", "vi", "vu", "vb", "vs", "vd"};
+                                                "ad2", "ad3", "fi1", "fi3", "bs0", "bs1", "bs3", "bs8", "vi", "vu", "vb", "vs", "vd",
+                                                "af0", "af1", "af2", "af3", "ac0", "ac1", "ac2", "ac3", "fd1", "fd2", "vf", "vc"};
   std::string ty, text;
   auto kindOf = [](const std::string& t, char& kind, int& bits, bool& sg) {
     kind = 'i'; bits = 32; sg = true;
@@ -1340,6 +1523,8 @@ static std::string genGet(Rng& r, const Args&) {
     if (t == "bool" || t[0] == 'b' || t == "vb") kind = 'b';
     if (t == "str" || t[1] == 's') kind = 's';
     if (t == "dbl" || t[1] == 'd') kind = 'd';
+    if (t == "flt" || t == "vf" || (t[0] == 'a' && t[1] == 'f')) kind = 'f';
+    if (t == "chr" || t == "vc" || (t[0] == 'a' && t[1] == 'c')) kind = 'c';
   };
   char kind; int bits; bool sg;
   if (r.coin(2, 5)) {
@@ -1359,12 +1544,13 @@ static std::string genGet(Rng& r, const Args&) {
       if (kind == 's') { static const std::vector<std::string> ws = {"a", "b", "hello", "x=y", "'q'", "1", "#"}; t = r.pick(ws); }
       else if (r.coin(1, 12)) t = genScalarText(r, kind, bits, sg);
       else if (kind == 'i') t = genIntText(r, bits, sg);
-      else if (kind == 'd') t = genDblText(r);
+      else if (kind == 'd' || kind == 'f') t = genDblText(r);
+      else if (kind == 'c') { static const std::vector<std::string> c = {"a", "b", "Z", "7", "#", "ab", "\xe9", "-"}; t = r.pick(c); }
       else { static const std::vector<std::string> b = {"yes", "no", "true", "false", "1", "0", "TRUE", "No", "2", "x", "-1", "-3"}; t = r.pick(b); }
       text += (i ? r.pick(seps) : "") + t;
     }
     if (r.coin(1, 4)) text += padC(r);
-    if (r.coin(1, 12) && kind != 's' && kind != 'b') { static const std::vector<std::string> glue = {"1-2", "1+2", "3-4-5", "1.5.5", "1..5", "1e5.5", "+1+1", "7-", "1e", "-+1"}; text += (text.empty() ? "" : " ") + r.pick(glue); }
+    if (r.coin(1, 12) && kind != 's' && kind != 'b' && kind != 'c') { static const std::vector<std::string> glue = {"1-2", "1+2", "3-4-5", "1.5.5", "1..5", "1e5.5", "+1+1", "7-", "1e", "-+1"}; text += (text.empty() ? "" : " ") + r.pick(glue); }
     if (r.coin(1, 8)) { static const std::vector<std::string> tails = {" -", " +", " .", " 1e", " x", "-", "+", " 99999999999999999999", " e", ","}; text += r.pick(tails); }
   }
   return "get " + ty + " " + hx(text);
@@ -1378,7 +1564,17 @@ static std::string genShw(Rng& r, const Args&) {
 static std::string genTq(Rng& r, const Args&) {
   GenDoc g = genDoc(r, 8, true, r.coin(1, 8));
   std::string kv;
-  for (size_t i = 0; i < g.entries.size(); ++i) kv += (i ? "," : "") + hx(g.entries[i].first) + "=" + hx(g.entries[i].second);
+  for (size_t i = 0; i < g.entries.size(); ++i) {
+    // now and then create a group with the non-const sub() first: a prefix of the key, the key itself (clash), or a new name
+    if (r.coin(1, 6)) {
+      std::string gk = g.entries[i].first;
+      long c = r.range(0, 3);
+      if (c <= 1) { auto d = gk.rfind('.'); if (d != std::string::npos) gk = gk.substr(0, d); }
+      else if (c == 2) gk = genName(r) + (r.coin() ? "." + genName(r) : "");
+      kv += (kv.empty() ? "" : ",") + hx(gk) + "=@";
+    }
+    kv += (kv.empty() ? "" : ",") + hx(g.entries[i].first) + "=" + hx(g.entries[i].second);
+  }
   if (r.coin(1, 3) && !g.entries.empty()) {  // numeric values for gi
     kv += "," + hx(g.entries[0].first) + "=" + hx(genScalarText(r, 'i', 32, true));
   }
@@ -1411,7 +1607,8 @@ static std::string gen(Rng& r, long, const Args& a) {
   long k = r.range(0, 99);
   if (only == "rt" || (only.empty() && k < 34)) return genRt(r, a);
   if (only == "ini" || (only.empty() && k < 44)) return genIni(r, a);
-  if (only == "hostile" || (only.empty() && k < 52)) return genHostile(r, a);
+  if (only == "hostile" || (only.empty() && k < 51)) return genHostile(r, a);
+  if (only == "bads" || (only.empty() && k < 53)) return genBads(r, a);
   if (only == "opt" || (only.empty() && k < 58)) return genOpt(r, a);
   if (only == "nopt" || (only.empty() && k < 66)) return genNopt(r, a);
   if (only == "get" || (only.empty() && k < 90)) return genGet(r, a);
@@ -1420,5 +1617,6 @@ static std::string gen(Rng& r, long, const Args& a) {
 }
 
 int main(int argc, char** argv) {
+  for (int i = 1; i + 1 < argc; ++i) if (std::string(argv[i]) == "--out") g_tmp = std::string(argv[i + 1]) + ".scratch";
   return dv::run(argc, argv, gen, exec);
 }
